@@ -14,6 +14,7 @@ from .core import as_violation
 from .world import World
 
 RAISE = '__raise__'      # as a handler's "return value": the handler raises
+RAISE_T = '__raise_type__'      # ... a TypeError
 NSS = ['/', '/x', '/c', '/zzz']
 SERVED = ['/', '/x', '/c']
 ROOMS = ['r1', 'r2', 7]
@@ -29,7 +30,8 @@ def server_scenario_st(tier):
     tt = st.integers(0, 3)
     arg = S.tree_st(with_bytes=True, max_leaves=4)
     ret = st.one_of(st.none(), arg, st.lists(arg, max_size=2).map(tuple),
-                    st.sampled_from([(), 0, '', b'', [], False, RAISE, RAISE]))
+                    st.sampled_from([(), 0, '', b'', [], False, RAISE, RAISE,
+                                     RAISE_T]))
     room = st.integers(0, 2)
     auth = st.one_of(st.none(), st.just({}), st.just({'token': 't'}),
                      st.just('tok'))
@@ -72,6 +74,7 @@ def server_scenario_st(tier):
         # followed at once by an ordinary event from the same client
         st.fixed_dictionaries({'op': st.just('fault_event'), 'c': ci,
                                'binary': st.booleans(),
+                               'exc': st.sampled_from([RAISE, RAISE_T]),
                                'id': st.one_of(st.none(), st.integers(0, 5)),
                                'id2': st.integers(0, 5)}),
         st.fixed_dictionaries({'op': st.just('ack'), 'c': ci,
@@ -102,6 +105,32 @@ def server_scenario_st(tier):
                                    st.sampled_from(['u', 'k']),
                                    S.leaves_st(), max_size=2)}),
         st.fixed_dictionaries({'op': st.just('get'), 'c': ci}),
+        # an event whose handler (a function handler on / and /x, a method of
+        # the class-based namespace on /c, which uses its own helpers) calls
+        # the server API from inside the handler
+        st.fixed_dictionaries({'op': st.just('do'), 'c': ci,
+                               'id': st.integers(0, 5),
+                               'script': st.lists(st.one_of(
+                                   st.tuples(st.just('emit'), st.one_of(
+                                       st.none(), st.just('self'), room)),
+                                   st.tuples(st.just('enter'), room),
+                                   st.tuples(st.just('rooms')),
+                                   st.tuples(st.just('get'))).map(list),
+                                   min_size=1, max_size=3)}),
+        st.fixed_dictionaries({'op': st.just('do'), 'c': ci,
+                               'id': st.one_of(st.none(), st.integers(0, 5)),
+                               'script': st.lists(st.one_of(
+                                   st.tuples(st.just('emit'), st.one_of(
+                                       st.none(), st.just('self'), room)),
+                                   st.tuples(st.just('enter'), room),
+                                   st.tuples(st.just('leave'), room),
+                                   st.tuples(st.just('close'), room),
+                                   st.tuples(st.just('rooms')),
+                                   st.tuples(st.just('save'),
+                                             S.leaves_st(with_bytes=False)),
+                                   st.tuples(st.just('get')),
+                                   st.tuples(st.just('disc'))).map(list),
+                                   min_size=1, max_size=4)}),
         st.fixed_dictionaries({'op': st.just('raw'), 't': tt,
                                'text': st.one_of(st.sampled_from(BAD),
                                                  S.text_st(max_size=6))}),
@@ -170,6 +199,8 @@ def _run(case, aio, coro, setup, w, socketio, n_transports):
                 r = copy.deepcopy(rets.get(a['__tag']))
                 if r == RAISE:
                     raise RuntimeError('application handler fault')
+                if r == RAISE_T:
+                    raise TypeError('application handler fault')
                 return r
         return None
 
@@ -238,6 +269,71 @@ def _run(case, aio, coro, setup, w, socketio, n_transports):
     nso.on_a = mk('class:/c:a')
     nso.on_connect = c_connect
     nso.on_disconnect = c_disconnect
+
+    def mk_do(api_obj, ns):
+        # api_obj is the server (function handlers pass the namespace) or
+        # the class-based namespace object (its helpers imply it)
+        kw = {} if api_obj is nso else {'namespace': ns}
+
+        def target(sid, where):
+            if where is None:
+                return {}
+            if where == 'self':
+                return {'to': sid}
+            return {'to': ROOMS[where]}
+        if aio:
+            async def h(sid, tg, script):
+                trace.append(('handler', 'do:' + ns, [sid, script]))
+                out = []
+                for a in script:
+                    if a[0] == 'emit':
+                        await api_obj.emit('h', a[1], **target(sid, a[1]),
+                                           **kw)
+                    elif a[0] == 'enter':
+                        await api_obj.enter_room(sid, ROOMS[a[1]], **kw)
+                    elif a[0] == 'leave':
+                        await api_obj.leave_room(sid, ROOMS[a[1]], **kw)
+                    elif a[0] == 'close':
+                        await api_obj.close_room(ROOMS[a[1]], **kw)
+                    elif a[0] == 'rooms':
+                        out.append(sorted((r for r in api_obj.rooms(
+                            sid, **kw) if r != sid), key=repr))
+                    elif a[0] == 'save':
+                        await api_obj.save_session(sid, {'v': a[1]}, **kw)
+                    elif a[0] == 'get':
+                        out.append(copy.deepcopy(
+                            await api_obj.get_session(sid, **kw)))
+                    elif a[0] == 'disc':
+                        await api_obj.disconnect(sid, **kw)
+                return out
+        else:
+            def h(sid, tg, script):
+                trace.append(('handler', 'do:' + ns, [sid, script]))
+                out = []
+                for a in script:
+                    if a[0] == 'emit':
+                        api_obj.emit('h', a[1], **target(sid, a[1]), **kw)
+                    elif a[0] == 'enter':
+                        api_obj.enter_room(sid, ROOMS[a[1]], **kw)
+                    elif a[0] == 'leave':
+                        api_obj.leave_room(sid, ROOMS[a[1]], **kw)
+                    elif a[0] == 'close':
+                        api_obj.close_room(ROOMS[a[1]], **kw)
+                    elif a[0] == 'rooms':
+                        out.append(sorted((r for r in api_obj.rooms(
+                            sid, **kw) if r != sid), key=repr))
+                    elif a[0] == 'save':
+                        api_obj.save_session(sid, {'v': a[1]}, **kw)
+                    elif a[0] == 'get':
+                        out.append(copy.deepcopy(
+                            api_obj.get_session(sid, **kw)))
+                    elif a[0] == 'disc':
+                        api_obj.disconnect(sid, **kw)
+                return out
+        return h
+    sio.on('do', mk_do(sio, '/'), namespace='/')
+    sio.on('do', mk_do(sio, '/x'), namespace='/x')
+    nso.on_do = mk_do(nso, '/c')
     sio.register_namespace(nso)
     hooks = setup(w) if setup else {}
 
@@ -387,11 +483,20 @@ def _run(case, aio, coro, setup, w, socketio, n_transports):
                 w.send(c['t'], wire.EVENT, ns, op['id'],
                        [op['name'], {'__tag': tag[0]}] + list(op['args']))
                 w.h.settle()
+            elif k == 'do':
+                labels['entry_points'].add('handler-API')
+                tag[0] += 1
+                w.send(c['t'], wire.EVENT, c['ns'], op['id'],
+                       ['do', {'__tag': tag[0]}, [list(a) for a in
+                                                  op['script']]])
+                w.h.settle()
+                if any(a[0] == 'disc' for a in op['script']):
+                    w.mark_dead(ci)
             elif k == 'fault_event':
                 labels['entry_points'].add('EVENT')
                 labels['faults'] += 1
                 tag[0] += 1
-                rets[tag[0]] = RAISE
+                rets[tag[0]] = op.get('exc', RAISE)
                 args = [{'__tag': tag[0]}] + ([b'bin', {'k': b'x'}]
                                               if op['binary'] else ['txt'])
                 w.send(c['t'], wire.EVENT, c['ns'], op['id'], ['a'] + args)
